@@ -24,6 +24,7 @@ import FastQr.Finite.VersionCells
 import FastQr.Proofs.Lift
 import FastQr.Model.Build
 import FastQr.Proofs.BuildSound
+import FastQr.Proofs.FinalData
 
 namespace FastQr.Props.C04
 open FastQr Model Spec Finite Proofs
@@ -79,6 +80,34 @@ version-information cells carry the BCH(18,6) word of the version at the positio
 (tier N checker on the model's write lists) -/
 theorem C04_version_cells {v : Nat} (hv : v < 40) : Finite.versionCellsOk v = true :=
   all_range Finite.versionCellsOk_all v hv
+
+/-- **C04 (version information in every built symbol)**: for every input and option combination for
+which the model builder returns a symbol of version 7..40, the i-th module of Figure 26's position list
+(copy 1: i < 18, copy 2: 18 ≤ i < 36, most significant bit first) is a Version-typed module holding bit
+17 - (i mod 18) of the BCH(18,6) word of the REPORTED version — whatever the payload, level and mask -/
+theorem C04_version_in_symbol (inp : List Nat) (o : Opts) (ho : LegalOpts o) (b : Built)
+    (h : (build inp o).val = .ok b) (h7 : 6 ≤ b.version) (i r c : Nat)
+    (hi : (Regions.versionCells (Regions.side b.version))[i]? = some (r, c))
+    (hr : r < Regions.side b.version) (hc : c < Regions.side b.version) :
+    b.qr.get r c = mk ((BCH.version18 (b.version + 1) >>> (17 - i % 18)) % 2 == 1) Region.version.code := by
+  obtain ⟨hv, hm, bytes, hq⟩ := build_final inp o ho b h
+  have hok := C04_version_cells hv
+  have hlt : ¬ b.version < 6 := by omega
+  simp only [Finite.versionCellsOk, hlt, decide_false, Bool.false_or, List.all_eq_true, beq_iff_eq] at hok
+  have hmem : ((r, c), i) ∈ (Regions.versionCells (Regions.side b.version)).zipIdx := by
+    rw [List.mem_zipIdx_iff_getElem?]; simpa using hi
+  have hcell := hok _ hmem
+  simp only at hcell
+  -- the cell is version information: neither encoding region nor format information
+  have htt := template_type hv hr hc
+  have hcode : (Regions.region b.version r c).code = Region.version.code := by
+    rw [← htt]; simp only [QR.type, hcell, mtype_mk]
+  have hnd : Regions.region b.version r c ≠ .data := by
+    intro hh; rw [hh] at hcode; exact absurd hcode (by decide)
+  have hnf : Regions.region b.version r c ≠ .format := by
+    intro hh; rw [hh] at hcode; exact absurd hcode (by decide)
+  rw [hq, FinalData.finalMatrix_fixed hv hm b.ecl bytes hr hc hnd hnf]
+  exact hcell
 
 /-! non-vacuity -/
 example : T.formatInfo .Q 3 = 0b011101000000110 := by decide +kernel
